@@ -16,7 +16,9 @@
 (* harness replays them into the real library.  The invariants below are   *)
 (* the model-level statements of the property.                             *)
 (***************************************************************************)
-EXTENDS JMES, Json, DocsCore
+EXTENDS JMES, Json, DocsCore, Toks
+
+Docs == PoolCore
 
 CONSTANTS MaxDepth,      \* number of productions applied
           Emit,          \* TRUE: print case lines
@@ -24,17 +26,6 @@ CONSTANTS MaxDepth,      \* number of productions applied
 
 VARIABLES ts, depth
 vars == <<ts, depth>>
-
-t(k, cp) == Tok(k, cp, FALSE)
-Dot == t("dot", <<46>>)      LB == t("lbracket", <<91>>)   RB == t("rbracket", <<93>>)
-Star == t("star", <<42>>)    Colon == t("colon", <<58>>)   Comma == t("comma", <<44>>)
-Flat == t("flatten", <<91,93>>) Filt == t("filter", <<91,63>>) LBr == t("lbrace", <<123>>)
-RBr == t("rbrace", <<125>>)   LP == t("lparen", <<40>>)     RP == t("rparen", <<41>>)
-PipeT == t("pipe", <<124>>)   OrT == t("or", <<124,124>>)       AndT == t("and", <<38,38>>)
-NotT == t("not", <<33>>)     EqT == t("eq", <<61,61>>)       NeT == t("ne", <<33,61>>)
-LtT == t("lt", <<60>>)       CurT == t("cur", <<64>>)      RootT == t("root", <<36>>)
-Id(s) == t("id", s)        IntT(s) == t("int", s)      Json(s) == t("json", s)
-Raw(s) == t("raw", s)
 
 Atoms == { <<Id(<<120>>)>>, <<CurT>>, <<Star>>, <<LB, Star, RB>>, <<Flat>>, <<Id(<<97>>)>>,
            <<LB, IntT(<<48>>), RB>>, <<Filt, Id(<<97>>), RB>>, <<Json(<<96,91,91,49,44,110,117,108,108,93,44,91,50,93,93,96>>)>> }
@@ -74,7 +65,6 @@ Spec == Init /\ [][Next]_vars
 \*   SelectorsNeverFail    selections on the wrong type are null, never an
 \*                  error: a core expression without functions, arithmetic
 \*                  and variables cannot fail at run time
-Named(ok, name) == ok \/ ~PrintT("MODELFAIL " \o name)
 Check ==
   LET comps == Compilations(ts)
       outs  == [d \in 1..Len(Docs) |-> [c \in comps |-> OutcomeOf(c, Docs[d])]]
